@@ -201,6 +201,17 @@ def run_envelope(spec, rec, lib):
             if r < 0.3:
                 label, e, _k, _d = rng.choice(list(x for x in corruptions(k, data, hdr, e, rng) if x[2] == k.hex and x[3] == data))
             env["signatures"][k.hex] = e
+        r2 = rng.random()
+        if r2 < 0.3:
+            # the optional see_also field (unsigned, diagnostic): one shared value on every entry / distinct values / on some only
+            fp = "%040x" % rng.getrandbits(160)
+            for e in env["signatures"].values():
+                if isinstance(e, dict) and isinstance(e.get("see_also", ""), str):
+                    e["see_also"] = fp
+        elif r2 < 0.45:
+            for e in env["signatures"].values():
+                if isinstance(e, dict) and rng.random() < 0.5 and isinstance(e.get("see_also", ""), str):
+                    e["see_also"] = "%040x" % rng.getrandbits(160)
         auth = [k.hex for k in ks]
         t = rng.randint(1, len(ks))
         model = models.threshold_verdict(env, auth, t, True)
